@@ -9,7 +9,7 @@ t=time.time(); res=vlib.run_impl(domname,prop,cases); print('impl %.1fs'%(time.t
 t=time.time(); ml=vlib.run_driver(dom.MODE,[dom.req(c) for c in cases]); print('model %.1fs'%(time.time()-t))
 n=0; vk=collections.Counter(); um=0
 for c,r,m in zip(cases,res,ml):
-    same = dom.compare(c,r[0],m) if hasattr(dom,'compare') else (None if isinstance(c.get('s'),str) and vlib.unmodelled_text(c['s']) else r[0]==m)
+    same = vlib.compare_alternatives(dom, c, r[0], m)
     if same is None: um+=1
     elif not same:
         n+=1
